@@ -179,6 +179,12 @@ class _SymBase:
     def item(self):
         return self
 
+    def __deepcopy__(self, memo):
+        return self          # immutable
+
+    def __copy__(self):
+        return self
+
     def __reduce__(self):
         # real pickle/deepcopy run on symbolic state (C19 / learn's deepcopy)
         return (_rebuild, (type(self).__name__, self.e.sexpr(), _decls_of(self.e)))
